@@ -26,6 +26,7 @@ def check(chk, thorough=False):
     chk.run('C18.h', 'R-FLOW', 'popping returns exactly the announced bundle: a bundle is cut out of its datagram at its own item boundaries (= C13.e)', lambda ob: __import__('sa.props.c13', fromlist=['c13e']).c13e(tree, ob), floor=5)
     chk.run('C18.f', 'R-GUARD', 'a started transfer still completes (and gets its finished signal) while terminating (= C09.h); received UDPCL items get local ids (= C13.g)', lambda ob: _c18f(tree, ob), floor=3)
     chk.run('C18.i', 'R-ORDER', 'UDPCL reassembly is keyed by (address, port, transfer id): two senders on one host do not merge into one announced bundle (= C13.d)', lambda ob: __import__('sa.props.c13', fromlist=['c13d']).c13d(tree, ob), floor=6)
+    chk.run('C18.j', 'R-ESCAPE', 'a UDPCL transfer that was announced as started gets its finished signal also when it cannot be cut into datagrams: that error surfaces where the datagrams are drawn (the cutter is a generator) or is caught where it is called', lambda ob: c18j(tree, ob), floor=1)
     chk.run('C18.e', 'R-SCHEMA', 'BP-side subscribers name existing signals with matching arity and pop only successful transfers', lambda ob: c18e(tree, ob), floor=6)
 
 
@@ -615,3 +616,30 @@ def c18e(tree, ob):
                     ob.violate(CLA, qual, src(p), 'the BP adaptor pops a different id than the one announced', p)
                 else:
                     ob.site(CLA, p, 'TCPCL adaptor pops the announced id only on success')
+
+
+def c18j(tree, ob):
+    UA = 'udpcl/agent.py'
+    fs = FuncView(tree, UA, 'Agent._send_transfer')
+    is_gen = any(isinstance(x, (ast.Yield, ast.YieldFrom)) for x in walk_local(fs.func))
+    raises = [r for r in walk_local(fs.func) if isinstance(r, ast.Raise)]
+    n = 0
+    for (r, qual, func) in tree.all_functions([UA]):
+        for c in calls_in(func):
+            if not (isinstance(c.func, ast.Attribute) and c.func.attr == '_send_transfer' and src(c.func.value) == 'self'):
+                continue
+            n += 1
+            in_try = False
+            prev = c
+            cur = getattr(c, '_parent', None)
+            while cur is not None and cur is not func:
+                if isinstance(cur, ast.Try) and any(prev is st or prev in ast.walk(st) for st in cur.body) and cur.handlers:
+                    in_try = True
+                prev = cur
+                cur = getattr(cur, '_parent', None)
+            if is_gen or in_try or not raises:
+                ob.site(UA, c, qual + ': the cutter ' + ('is a generator: its errors surface where the datagrams are drawn (and reported)' if is_gen else 'is called under a handler' if in_try else 'cannot raise'))
+            else:
+                ob.violate(UA, qual, src(c)[:70], 'the datagrams of the transfer are now built at this call (the cutter is no longer a generator) and the call is not guarded: "segment overhead too large '
+                           'for MTU" escapes the TX worker after send_bundle_started was emitted and the item was taken off the queue; the transfer never gets a finished signal', c)
+    ob.require(n >= 1, 'calls of _send_transfer in udpcl/agent.py')
